@@ -564,12 +564,21 @@ class HierarchicalMachine(Machine):
                       for name in self.get_nested_state_names()]
         else:
             if source != self.wildcard_all:
-                source = [self.state_cls.separator.join(self._get_enum_path(s)) if isinstance(s, Enum) else s
-                          for s in listify(source)]
+                source = [self.state_cls.separator.join(self._get_enum_path(s)) if isinstance(s, Enum)
+                          else self._get_state_object_name(s) for s in listify(source)]
             if dest != self.wildcard_same:
-                dest = self.state_cls.separator.join(self._get_enum_path(dest)) if isinstance(dest, Enum) else dest
+                dest = self.state_cls.separator.join(self._get_enum_path(dest)) if isinstance(dest, Enum) \
+                    else self._get_state_object_name(dest)
         super(HierarchicalMachine, self).add_transition(trigger, source, dest, conditions,
                                                         unless, before, after, prepare, **kwargs)
+
+    def _get_state_object_name(self, state):
+        # a registered NestedState object stands for its path (relative to the current scope), not its bare name
+        if isinstance(state, NestedState):
+            path = self._get_state_path(state)
+            if path:
+                return self.state_cls.separator.join(path)
+        return state
 
     def get_global_name(self, state=None, join=True):
         """Returns the name of the passed state in context of the current prefix/scope.
